@@ -40,16 +40,6 @@ def search_streams(tier, seed, diffs):
 
 
 MANIFEST = dict(
-    level_text=("Theorems (Coq, ALL well-formed systems / depths / both entry points init_at(0) and init_at(j>0)): C04_script_wf_fixed (the "
-                "script of the repaired encoding passes the strict checker: every name introduced once, before use, bodies well-sorted), "
-                "C04_script_wf_outside_known (the same for the CURRENT code outside the known class), three C04_*_refuted theorems (concrete "
-                "systems on which the current code, resp. both variants, emit an ill-formed script), C04_script_faithful (whenever the script "
-                "is accepted, evaluating it from any valuation of the declared constants taken from a run of the system gives the step "
-                "symbols of all states, inputs, constraints and bad states their values in that run; both variants). The model covers "
-                "analyze_for_serialization (use counts, post-order), UnrollSmtEncoding::{new, init_at, unroll, get_signal_at}. Tie to /repo: "
-                "the command stream recorded from the real encoding vs the extracted model on every run; the extracted strict checker, the "
-                "extracted evaluator against random executions, and z3/cvc5 judge the implementation's own script."),
-    level_note=("Trusted: Coq kernel; hand-written model tied by differential execution (generator-bounded); node identity = structural "
-                "equality (C12); names of unnamed signals taken from the implementation. Four encoding defects recorded as known findings "
-                "(two with a tested repair, modelled as variant Fixed; switch HANDLER to C04F after the fix commit)."),
+    level_text="Theorems (Coq, ALL well-formed systems / depths / both entry points init_at(0) and init_at(j>0)): C04_script3_wf (the script the code in /repo emits - lazy init-signal definitions, init states in dependency order - passes the strict checker for EVERY system whose init dependencies are acyclic: every name introduced once, before use, bodies well-sorted), C04_script3_faithful (whenever the script is accepted, evaluating it from a valuation taken from a run of the system gives every step symbol the value of its signal in the run), C04_script3_covers_script2, the same pairs for the two earlier repair stages (script2, script Fixed) and three C04_*_refuted theorems with concrete systems on which the OLDER scripts are ill-formed. Tie to /repo: the recorded commands of the real UnrollSmtEncoding are compared IN ORDER with the model's, checked by the extracted strict checker, evaluated against executions, and the real SMT-LIB text is evaluated by z3 with pinned constants.",
+    level_note='Trusted: Coq kernel; hand-written model tied by differential execution (generator-bounded, in-order comparison of the init block with the model); node identity = structural equality (C12); names of unnamed signals taken from the implementation. Three encoding defects found by this check are repaired in /repo (bb18215, 62ef644, 264fc0d; the older scripts keep their _refuted theorems); open finding: cyclic init dependencies.',
 )
